@@ -1,5 +1,6 @@
 import Sudachi.Model.Wire
 import Sudachi.Model.Codec
+import Sudachi.Model.Trie
 /-!
 # Dictionary builder (property C05): `dic/build/{parse,lexicon,conn,index,resolve,mod}.rs`
 
@@ -293,7 +294,7 @@ def validateWid (wid dic0Max dic1Max : Nat) : Bool :=
   widWord wid < max
 
 def validateEntry (maxLeft maxRight : Int) (max0 max1 : Nat) (e : Entry) : Bool :=
-  e.left < maxLeft && e.right < maxRight
+  e.left < maxLeft && e.right < maxRight && !(e.left ≥ 0 && e.right < 0)
     && (e.dicForm = INVALID_WID || validateWid e.dicForm max0 max1)
     && e.splitsA.all (validateWid · max0 max1) && e.splitsB.all (validateWid · max0 max1)
     && e.wordStructure.all (validateWid · max0 max1)
@@ -331,16 +332,22 @@ def splitnWhite : Nat → Str → List Str
     | (a, []) => [a]
     | (a, rest) => a :: splitnWhite (n + 1) (rest.dropWhile isWhite)
 
+/-- `ConnBuffer::parse_line` up to `write_elem`: the three numbers of a matrix line -/
+def parseConnLine (l : Str) : Option (Int × Int × Int) :=
+  match (splitnWhite 3 (trim l)).map parseI16 with
+  | [some left, some right, some cost] => some (left, right, cost)
+  | _ => none
+
 def parseConnLines (numLeft : Nat) : List Str → Bytes → Outcome Bytes
   | [], m => .ok m
   | l :: rest, m =>
     if isEmptyLine l then parseConnLines numLeft rest m else
-    match (splitnWhite 3 (trim l)).map parseI16 with
-    | [some left, some right, some cost] =>
+    match parseConnLine l with
+    | some (left, right, cost) =>
       match writeElem m numLeft left right cost with
       | .ok m' => parseConnLines numLeft rest m'
       | e => e
-    | _ => .err "conn-line"
+    | none => .err "conn-line"
 
 /-- `ConnBuffer::read`: skip blank lines (end of input there = `todo!()`), header, then the cells -/
 def readConn (text : Str) : Outcome Conn :=
@@ -360,18 +367,25 @@ def readConn (text : Str) : Outcome Conn :=
 
 /-! ## index (`index.rs`) -/
 
+/-- apply `f` to element `k` of a list -/
+def modifyAt {α : Type} (f : α → α) : Nat → List α → List α
+  | _, [] => []
+  | 0, x :: xs => f x :: xs
+  | k + 1, x :: xs => x :: modifyAt f k xs
+
 /-- `IndexBuilder::add` for every indexed entry in order: ids grouped by surface, groups in the
-order their surface first appears (insertion-ordered map) -/
+order their surface first appears (insertion-ordered map).  Lists only (structural recursion), so that
+predicates over the groups can be evaluated by the kernel. -/
 def indexGroups (es : List Entry) : List (Str × List Nat) :=
-  go ((List.range es.length).zip es) #[]
+  go ((List.range es.length).zip es) []
 where
-  go : List (Nat × Entry) → Array (Str × List Nat) → List (Str × List Nat)
-    | [], acc => acc.toList
+  go : List (Nat × Entry) → List (Str × List Nat) → List (Str × List Nat)
+    | [], acc => acc
     | (i, e) :: rest, acc =>
       if e.left ≥ 0 then
         match acc.findIdx? (fun g => g.1 = e.surface) with
-        | some k => go rest (acc.modify k (fun g => (g.1, g.2 ++ [widNew 0 i])))
-        | none => go rest (acc.push (e.surface, [widNew 0 i]))
+        | some k => go rest (modifyAt (fun g => (g.1, g.2 ++ [widNew 0 i])) k acc)
+        | none => go rest (acc ++ [(e.surface, [widNew 0 i])])
       else go rest acc
 
 /-- `build_word_id_table` -/
@@ -405,8 +419,18 @@ def writeConn (c : Conn) : Outcome Bytes :=
   if c.numLeft < 0 ∨ c.numRight < 0 then .err "InvalidConnSize"
   else .ok (le16 (i16ToU c.numLeft) ++ le16 (i16ToU c.numRight) ++ c.matrix)
 
+/-- The dictionary-form id as `write_word_info` stores it.  `fix = false`: the code as it stands (the raw
+`WordId`, dictionary bits included).  `fix = true`: the repair of finding D8's first half (`fix_D8.patch`): a
+reference `UN` to an own entry of a user dictionary is stored as the index `N`, which is what
+`WordInfos::get_word_info` resolves inside the same lexicon.  The harness probes the linked builder and names
+the variant on every case line (`df=cur|fix`). -/
+def storeDf (fix : Bool) (e : Entry) : Entry :=
+  if fix && e.dicForm ≠ INVALID_WID && widDic e.dicForm ≠ 0 then { e with dicForm := widWord e.dicForm } else e
+
 structure CompileInput where
   user : Bool
+  /-- code variant of `write_word_info` (see `storeDf`) -/
+  dfFix : Bool := false
   time : Nat
   desc : Bytes
   pos : List (List Str)
@@ -427,7 +451,7 @@ def compile (c : CompileInput) : Outcome Bytes := do
   let widTable ← buildWordIdTable c.entries
   let index := le32 ((c.trie.length / 4) % 4294967296) ++ c.trie ++ le32 (widTable.length % 4294967296) ++ widTable
   let written := header.length + posTable.length + conn.length
-  let lex ← writeLexicon c.entries (written + index.length)
+  let lex ← writeLexicon (c.entries.map (storeDf c.dfFix)) (written + index.length)
   pure (header ++ posTable ++ conn ++ index ++ lex)
 
 /-! ## driver: build → load → dump (`C05 dict`) -/
@@ -438,16 +462,17 @@ def stage {α : Type} (name : String) : Outcome α → Except String α
   | .panic _ => .error ("PANIC stage=" ++ name)
 
 /-- `read_conn` + `read_lexicon` + `resolve` + `compile` of a system dictionary -/
-def buildSystem (time : Nat) (desc : Bytes) (matText : Str) (rows : List (Array Str)) (trie : Bytes) : Except String Bytes := do
+def buildSystem (dfFix : Bool) (time : Nat) (desc : Bytes) (matText : Str) (rows : List (Array Str)) (trie : Bytes) : Except String (Bytes × List Str) := do
   let conn ← stage "conn" (readConn matText)
   let rd0 : Reader := { maxLeft := conn.numLeft, maxRight := conn.numRight }
   let rd ← stage "lexicon" (ofOpt "lexicon" (readRecords rd0 rows))
   let raw := rd.entries.toList
   let entries ← stage "resolve" (ofOpt "resolve" (resolveSplits (rawResolverRows raw false) [] raw))
   let ci : CompileInput :=
-    { user := false, time := time, desc := desc, pos := rd.pos.toList, startPos := rd.startPos, conn := conn, entries := entries,
+    { user := false, dfFix := dfFix, time := time, desc := desc, pos := rd.pos.toList, startPos := rd.startPos, conn := conn, entries := entries,
       maxLeft := rd.maxLeft, maxRight := rd.maxRight, numSystem := rd.numSystem, trie := trie }
-  stage "compile" (compile ci)
+  let bytes ← stage "compile" (compile ci)
+  pure (bytes, entries.map (·.surface))
 
 /-- `BinDictResolver::new`: surface (= headword), POS id and reading of every system word, read back
 from the loaded system dictionary -/
@@ -458,7 +483,7 @@ def binResolverRows (lex : Lexicon) : Outcome (List ResolverRow) :=
     pure (wi.surface, wi.posId, rd, widNew 0 i))
 
 /-- `DictBuilder::new_user(system)` + `read_lexicon` + `resolve` + `compile` -/
-def buildUser (sys : Loaded) (time : Nat) (desc : Bytes) (rows : List (Array Str)) (trie : Bytes) : Except String Bytes := do
+def buildUser (dfFix : Bool) (sys : Loaded) (time : Nat) (desc : Bytes) (rows : List (Array Str)) (trie : Bytes) : Except String (Bytes × List Str) := do
   let g ← match sys.grammar with
     | some g => pure g
     | none => .error "PANIC stage=unew"
@@ -469,9 +494,10 @@ def buildUser (sys : Loaded) (time : Nat) (desc : Bytes) (rows : List (Array Str
   let sysRows ← if rd.unresolved > 0 then stage "uresolve" (binResolverRows sys.lexicon) else pure []
   let entries ← stage "uresolve" (ofOpt "resolve" (resolveSplits (rawResolverRows raw true) sysRows raw))
   let ci : CompileInput :=
-    { user := true, time := time, desc := desc, pos := rd.pos.toList, startPos := rd.startPos, conn := {}, entries := entries,
+    { user := true, dfFix := dfFix, time := time, desc := desc, pos := rd.pos.toList, startPos := rd.startPos, conn := {}, entries := entries,
       maxLeft := rd.maxLeft, maxRight := rd.maxRight, numSystem := rd.numSystem, trie := trie }
-  stage "ucompile" (compile ci)
+  let bytes ← stage "ucompile" (compile ci)
+  pure (bytes, entries.map (·.surface))
 
 def hex2 (n : Nat) : String :=
   let d (k : Nat) : Char := if k < 10 then Char.ofNat (48 + k) else Char.ofNat (87 + k)
@@ -505,8 +531,39 @@ def showMatrix (g : Grammar) : String :=
 
 def showPos (ps : List (List Str)) : String := Wire.joinWith ";" (ps.map (fun p => Wire.joinWith "/" (p.map showStr)))
 
-/-- everything the property observes of the loaded dictionaries -/
-def dump (sys : Loaded) (usr : Option Loaded) : Except String String := do
+/-- `char::encode_utf8` (std; trusted base) -/
+def utf8Enc (c : Nat) : Bytes :=
+  if c < 0x80 then [c]
+  else if c < 0x800 then [0xC0 + c / 64, 0x80 + c % 64]
+  else if c < 0x10000 then [0xE0 + c / 4096, 0x80 + c / 64 % 64, 0x80 + c % 64]
+  else [0xF0 + c / 262144, 0x80 + c / 4096 % 64, 0x80 + c / 64 % 64, 0x80 + c % 64]
+
+/-- the trie units and the word-id table of a loaded lexicon **at the offsets `Lexicon::parse` computed**
+(`trieOff`, `trieSize`, `widTableOff`, `widTableSize`), handed to C04's model of `Trie` / `WordIdTable` /
+`Lexicon::lookup` -/
+def trieLex (l : Lexicon) (dic : Nat) : Option Trie.Lex :=
+  let buf := l.bytes.toArray
+  (Trie.decodeUnits buf l.trieOff l.trieSize).map (fun us =>
+    { trie := us.toArray, buf := buf, tblSize := l.widTableSize, tblOff := l.widTableOff, lexId := dic })
+
+/-- `LexiconSet::lookup(key, 0)` for every distinct key of the source rows: `(word id, end)` pairs -/
+def showLook (lexs : List Lexicon) (keys : List Str) : String :=
+  match Wire.allSome (((List.range lexs.length).zip lexs).map (fun (d, l) => trieLex l d)) with
+  | none => "PANIC"
+  | some tl =>
+    Wire.joinWith ";" (keys.eraseDups.map (fun k =>
+      match Trie.setLookup false tl (k.flatMap utf8Enc) 0 with
+      | none => "PANIC"
+      | some [] => "-"
+      | some r => Wire.joinWith "," (r.map (fun (w, e) => toString w ++ ":" ++ toString e))))
+
+def showHeader (h : Header) : String :=
+  toString h.version ++ ":" ++ toString h.createTime ++ ":" ++ showHex h.description
+
+/-- everything the property observes of the loaded dictionaries: both headers (version, creation time,
+description), POS list, every matrix cell, every field and the parameters of every word, and the lookup of
+every source key through the loaded trie and word-id table -/
+def dump (sys : Loaded) (usr : Option Loaded) (keys : List Str) : Except String String := do
   let g ← match sys.grammar with
     | some g => pure g
     | none => .error "err stage=load"
@@ -517,10 +574,14 @@ def dump (sys : Loaded) (usr : Option Loaded) : Except String String := do
   let upos := match usr with
     | some u => (match u.grammar with | some ug => ug.posList | none => [])
     | none => []
+  let uhdr := match usr with
+    | some u => " uhdr=" ++ showHeader u.header
+    | none => ""
   let ls : LexiconSet := { lexicons := lexs, posOffsets := [0, nsys], numSystemPos := nsys }
   let words := ((List.range lexs.length).zip lexs).flatMap (fun (d, lex) => (List.range lex.size).map (fun w => showWord ls (widNew d w)))
-  pure ("hdr=" ++ toString sys.header.createTime ++ ":" ++ showHex sys.header.description
-    ++ " pos=" ++ showPos (g.posList ++ upos) ++ " mat=" ++ showMatrix g ++ " words=" ++ Wire.joinWith "|" words)
+  pure ("hdr=" ++ showHeader sys.header ++ uhdr
+    ++ " pos=" ++ showPos (g.posList ++ upos) ++ " mat=" ++ showMatrix g ++ " words=" ++ Wire.joinWith "|" words
+    ++ " look=" ++ showLook lexs keys)
 
 /-- generic tail-recursive split -/
 def splitTR {α : Type} [DecidableEq α] (sep : α) (s : List α) : List (List α) :=
@@ -556,24 +617,25 @@ def run (toks : List (List Char)) : Except String String := do
   | some t, some d, some m, some r, some tr =>
     match Wire.nat? t, hexTR d, hexStr? m, parseRows r, hexTR tr with
     | some time, some desc, some mat, some rows, some trie =>
-      let sysBytes ← buildSystem time desc mat rows trie
+      let dfFix := Wire.kv? toks "df" == some "fix".toList
+      let (sysBytes, sysKeys) ← buildSystem dfFix time desc mat rows trie
       let sys ← stage "load" (readSystem sysBytes 0)
       match Wire.kv? toks "urows", Wire.kv? toks "utrie", Wire.kv? toks "udesc" with
       | some ur, some utr, some ud =>
         match parseRows ur, hexTR utr, hexTR ud with
         | some urows, some utrie, some udesc =>
-          let usrBytes ← buildUser sys time udesc urows utrie
+          let (usrBytes, usrKeys) ← buildUser dfFix sys time udesc urows utrie
           let usr ← stage "uload" (readUser usrBytes 0)
-          let d ← dump sys (some usr)
+          let d ← dump sys (some usr) (sysKeys ++ usrKeys)
           pure ("ok sys=" ++ showHex sysBytes ++ " usr=" ++ showHex usrBytes ++ " " ++ d)
         | _, _, _ => bad
       | _, _, _ =>
-        let d ← dump sys none
+        let d ← dump sys none sysKeys
         pure ("ok sys=" ++ showHex sysBytes ++ " " ++ d)
     | _, _, _, _, _ => bad
   | _, _, _, _, _ => bad
 
-/-- `C05 dict idx=.. time=<secs> desc=<hex> mat=<hex> rows=<..> trie=<hex> [udesc=<hex> urows=<..> utrie=<hex>]` -/
+/-- `C05 dict idx=.. df=cur|fix time=<secs> desc=<hex> mat=<hex> rows=<..> trie=<hex> [udesc=<hex> urows=<..> utrie=<hex>]` -/
 def handle (toks : List (List Char)) : String :=
   match run toks with
   | .ok s => s
